@@ -336,6 +336,8 @@ pub struct Profile {
     pub hostile_names: bool,
     /// C20: generic receivers
     pub generic_recv: bool,
+    /// chance out of 8 that a struct receiver gets a flatten member
+    pub flatten_weight: u32,
 }
 
 pub const HOSTILE_FIELDS: [&str; 24] = ["errors", "items", "item", "name", "inner", "other", "val", "len", "skip", "rename", "map", "with", "flatten", "multiple", "and_then", "word", "r#type", "r#fn", "r#match", "r#struct", "result", "value", "field", "meta"];
@@ -444,7 +446,7 @@ impl<'a> Gen<'a> {
         }
         // at most one flatten member: a nested struct receiver, a boxed one, or a string map
         let _ = tr;
-        if self.profile.flatten && !in_variant && depth < self.profile.max_depth && self.rng.chance(1, 4) {
+        if self.profile.flatten && !in_variant && depth < self.profile.max_depth && self.rng.chance(self.profile.flatten_weight, 8) {
             let ty = match self.rng.below(5) {
                 0 => Ty::Map(Box::new(Ty::Sc(Sc::Str))),
                 1 => {
